@@ -58,7 +58,7 @@ CHECKS = {
                         "Agc step sizes 0.002..0.2; settling bound derived from the loop contraction |1-2*step| per sample"],
     },
     "C12": {
-        "batches": [("C12", "asan", 4, 12000, 300000)],
+        "batches": [("C12", "asan", 4, 12000, 100000)],
         "rule": ("one evaluation = one simulated history of one adaptive filter (LMS / NLMS / RLS, real or complex, length 2..64, parameters over the stable "
                  "range, unknown noise-free FIR system no longer than the filter, white input): 1-10 events {frame(n), n single-sample frames, lock, unlock} "
                  "followed by a settling phase whose length is the liveness bound computed from the parameters. Non-trivial: >= 1 lock toggle strictly "
